@@ -23,6 +23,7 @@ def canon(v):
     if t == "num": return "n:%d" % v["v"]
     if t == "nan": return "nan"
     if t == "nzero": return "n:-0"
+    if t == "half": return ("n:%d" % (v["h"] // 2)) if v["h"] % 2 == 0 else ("n:%s%d.5" % ("-" if v["h"] < 0 else "", abs(v["h"]) // 2))
     if t == "inf": return "n:Infinity" if v["s"] == 1 else "n:-Infinity"
     if t == "str": return "s:" + ",".join(str(c) for c in v["s"])
     if t == "fun": return "fn"
